@@ -93,6 +93,8 @@ def main(argv=None):
     ap.add_argument("--replay")
     ap.add_argument("--only", help="run only obligations whose name contains this")
     ap.add_argument("--jobs", type=int, default=int(os.environ.get("VERIF_JOBS", "16")))
+    ap.add_argument("--total-wall", type=int, default=int(os.environ.get("VERIF_TOTAL_WALL", "0") or 0),
+                    help="stop STARTING obligations after this many seconds (0: 3300 s in the thorough tier, unlimited in quick); the ones not started are reported inconclusive")
     ap.add_argument("-v", action="store_true")
     a = ap.parse_args(argv)
     prop = a.prop.upper()
@@ -108,8 +110,13 @@ def main(argv=None):
     known = load_known(prop)
     results = {}
 
+    total_wall = a.total_wall or (3300 if a.tier == "thorough" else 0)
+
     def job(o):
         kl = [k["signature"] for k in known if k["obligation"] in (o.name, "*")]
+        if total_wall and time.time() - t0 > total_wall:
+            return o.name, {"verdict": "inconclusive", "inconclusive": [f"not started: the check's total wall budget of {total_wall} s was used up by earlier obligations"],
+                            "paths": 0, "queries": 0, "solver_s": 0, "wall_s": 0, "obligation": o.name}
         return o.name, _run_worker(["run", prop, o.name, a.tier, str(seed), json.dumps(kl)], o.wall_s + 60)
 
     with cf.ThreadPoolExecutor(max_workers=max(1, a.jobs)) as ex:
